@@ -737,9 +737,9 @@ impl Area for Udp {
             s(&["new 4 100 dns 1 0 0 400 400 1 1", "c 6:fd000000000000000000000000000001:9100 01 0", "r 0 b0 4:7f000001:5300 0",
                 "c 4:0a000001:9000 02 0", "r 1 b3 6:fd00000000000000000000000000000b:5300 0", "c 6:fd000000000000000000000000000001:9101 03 0",
                 "r 2 b3 6:fd00000000000000000000000000000b:5300 0", "dump"]),
-            // FINDING port0-flowkey-alias (harmful variant): flow admitted in source-ip mode for 10.0.0.1:9000 is
-            // filed under 10.0.0.1:0; after a switch to 4-tuple mode the distinct 4-tuple 10.0.0.1:0 is
-            // forwarded on it and the backend's replies go to port 9000
+            // regression for finding F25 (port0-flowkey-alias, repaired by FlowKey.ip_only): a flow admitted in
+            // source-ip mode for 10.0.0.1:9000 was filed under 10.0.0.1:0, and after a switch to 4-tuple mode the
+            // distinct 4-tuple 10.0.0.1:0 was forwarded on it; it must now get a flow of its own
             s(&["new 4 64 dns 0 0 0 400 400 0 0", "c 4:0a000001:9000 01 0", "r 0 b0 4:7f000001:5300 0", "cfg dns 1 0 0 400 400 0 0",
                 "c 4:0a000001:0 02 1", "b 0 aa 2"]),
             // no cluster / empty / oversized
